@@ -13,6 +13,7 @@ from .. import enc
 from ..common import REPO
 
 _params = {}
+_hist = {}
 
 
 def params(name):
@@ -61,7 +62,20 @@ def main():
                         else:
                             rs = mod.apply_binary_rules(x, y)
                     else:
-                        if t.get('unary'):
+                        if t.get('hist_table') is not None:
+                            # a history on one table object edited in place between calls / on short-lived tables built anew
+                            # for every call (object identities are reused): the table of THIS call decides
+                            if t['hist_table'] == 'same':
+                                table = _hist.setdefault('tab', {})
+                                table.clear()
+                            else:
+                                table = {}
+                            for lhs, rhs in t['table']:
+                                table.setdefault(enc.dec_cat(lhs), []).append(enc.dec_cat(rhs))
+                            o['tn0'] = len(table)
+                            rs = mod.apply_unary_rules(x, table)
+                            o['tn1'] = len(table)
+                        elif t.get('unary'):
                             fn = params(t['unary'])[1]
                             table = fn.keywords['unary_rules']         # the table read_params built (a defaultdict)
                             o['tn0'] = len(table)
